@@ -404,9 +404,9 @@ def generate(root, repo="/repo"):
     text = "\n".join(L)
     old = open(out).read() if os.path.exists(out) else None
     if old != text: open(out, 'w').write(text)
-    return True, "C07 layout extracted: header %d fields / %d bytes, %d opcodes, %d+%d instruction writers, %d decoder arms, const entry %d bytes, symbol entry %d bytes, magic %s, version %d" % (
+    return True, "C07 layout extracted: header %d fields / %d bytes, %d opcodes, %d+%d instruction writers, %d decoder arms, const entry %d bytes, symbol entry %d bytes (loader divides by %d, compiler multiplies by %d), magic %s, version %d" % (
         len(r['written']), sum(r['size_terms']), len(r['opcodes']), len(r['enc_write']), len(r['dec_write']), len(r['dec_read']),
-        sum(r['const_len_terms']), r['symbol_div'], r['magic_written'], r['version_written'])
+        sum(r['const_len_terms']), sum(w for _, w in r['symbol_write']), r['symbol_div'], r['symbol_mul'], r['magic_written'], r['version_written'])
 
 if __name__ == '__main__':
     root = os.path.dirname(os.path.dirname(os.path.abspath(__file__)))
